@@ -54,7 +54,8 @@ impl FromStr for TransformType {
                 .ok_or_else(|| SvgdxError::ParseError("No closing bracket".to_owned()))?,
         )?;
         // See https://www.w3.org/TR/SVG11/coords.html#TransformAttribute
-        Ok(match name.to_lowercase().as_str() {
+        // whitespace is allowed between the function name and the opening bracket
+        Ok(match name.trim().to_lowercase().as_str() {
             "translate" => {
                 // "translate(<tx> [<ty>]), which specifies a translation by tx and ty. If <ty> is not provided, it is assumed to be zero."
                 if args.len() == 1 {
